@@ -159,7 +159,7 @@ abbrev Heap := List Obj
 
 structure State where
   heap : Heap
-  log : List (Nat × Val)                  -- probe events, oldest first
+  log : List (Nat × Val)                  -- probe events, newest first
 deriving DecidableEq, Repr, Inhabited
 
 inductive Fail where
@@ -253,7 +253,7 @@ def alloc (c : Nat) (fields : List (Nat × Val)) : M Val := fun st =>
   (.ok (.ref st.heap.length), { st with heap := st.heap ++ [{ cls := c, fields := fields }] })
 
 def logProbe (k : Nat) (v : Val) : M Unit := fun st =>
-  (.ok (), { st with log := st.log ++ [(k, v)] })
+  (.ok (), { st with log := (k, v) :: st.log })
 
 /-- `isinstance(v, C)` for a user class `C` -/
 def instOf (P : Prog) (c : Nat) (v : Val) : M Bool := fun st =>
